@@ -1,4 +1,4 @@
-"""C08 -- source-annotated syntax tree (VGC + RCA rules R08.1-R08.12)."""
+"""C08 -- source-annotated syntax tree (VGC + RCA rules R08.1-R08.13)."""
 from __future__ import annotations
 
 import ast
@@ -26,6 +26,7 @@ EXPLANATION = (
 EXPLANATION += ' R08.12: the comment test of the token source looks at the LAST `#` before the token.'
 EXPLANATION += ' R08.2 is per branch for dispatching handlers: each method the node is handed to covers every field but those the dispatch test looks at.'
 EXPLANATION += ' R08.11: a `col_offset`/`end_col_offset` of an AST node (UTF-8 bytes) reaches a character offset only through codeanalyze.column_to_offset; it is otherwise only compared, or is the start column of a node tested to be a statement.'
+EXPLANATION += " R08.13: the backward token search returns a found index only under a positive comment test."
 ASSUMPTIONS = [
     "language inclusion is decided over ASCII plus representatives of the non-ASCII \\w/\\d/\\s classes",
     "zero-width assertions in rope's patterns are erased on the right-hand side (can only enlarge rope's language)",
@@ -79,6 +80,7 @@ def check(ctx, res) -> None:
     column_to_offset_anchor(ctx, res, "R08.11")
     byte_column_rule(ctx, res, "R08.11", ("rope.refactor.patchedast",), rest=True)
     _comment_test_rule(ctx, res)
+    _backward_search_passes_the_comment_test_rule(ctx, res)
 
 
 def _cursor_rule(ctx, res) -> None:
@@ -425,3 +427,32 @@ def _comment_test_rule(ctx, res) -> None:
                 f"`{ast.unparse(c)[:60]}` finds the FIRST `#` between the cursor and the token: when an earlier comment line lies in between, the line break after it makes a "
                 "word inside a later comment pass for code -- `except` / `finally` / an argument name mentioned in a comment gets the node's region, which then "
                 "disagrees with the interpreter's position (or the annotation raises MismatchedTokenError)", function=m.qualname)
+
+
+def _backward_search_passes_the_comment_test_rule(ctx, res) -> None:
+    """R08.13: the backward search for a token (`rfind_token`, used to find the opening parenthesis of a parenthesised operand) hands back a
+    candidate only after the comment test said it is code: every `return <found index>` stands under a positive `_good_token(...)`.
+    A shortcut "no line break between the candidate and the end, so it is real" is right for the FIRST candidate only -- after a
+    rejection the end of the search window lies inside the comment, and an earlier `(` of the same comment line passes it:
+    `x = (  # f(x) (see note)` / `a + b) * 2` gets a region that starts in the comment, or the annotation fails with
+    MismatchedTokenError."""
+    from .common import inlined
+    from ..cfg import CFG
+    idx = ctx.idx
+    src = idx.need_class(SOURCE)
+    m = src.methods.get("rfind_token")
+    if m is None:
+        raise AnalysisError("anchor=_Source.rfind_token not found")
+    cfg = CFG(inlined(idx, m))
+    n = 0
+    for nd in cfg.nodes:
+        if nd.kind != "stmt" or not isinstance(nd.ast, ast.Return) or nd.ast.value is None or (isinstance(nd.ast.value, ast.Constant) and nd.ast.value.value is None):
+            continue
+        n += 1
+        ok = any(pol and any(isinstance(c, ast.Call) and call_name(c) in ("_good_token", "_is_outside_comment") for c in ast.walk(t)) for t, pol in cfg.guards(nd.id))
+        res.add("R08.13", f"_Source.rfind_token|found-index-passed-the-comment-test#{n}", ok, f"{m.unit.rel}:{nd.lineno}",
+                "the found index is returned only after the comment test" if ok else
+                f"`{ast.unparse(nd.ast)}` hands back a candidate that did not pass the comment test: after one rejected candidate the window ends inside the comment, and an earlier "
+                "`(` on the same comment line is returned as a real parenthesis -- `x = (  # f(x) (see note)` / `    a + b) * 2`: the operand's region starts inside the comment "
+                "or the annotation fails with MismatchedTokenError", function=m.qualname)
+    res.floor("R08.13", "returns of a found index in the backward token search", n, 1)
